@@ -42,17 +42,22 @@ def make_ds(Dataset, shape, kinds, layout='C'):
                 bins[f'b{k}'] = np.arange(n + 1, dtype=float) + 100. * k
             else:
                 bins[f'b{k}'] = np.arange(n, dtype=float) + 0.5 + 100. * k
-    return Dataset(value, error, bins=bins, name='nm', what='wh')
+    d = Dataset(value, error, bins=bins, name='nm', what='wh')
+    if layout == 'M' and size:
+        # a masked dataset (Dataset.mask): every third cell masked
+        d = d.mask((np.arange(size).reshape(shape) % 3) == 1)
+    return d
 
 
 def snap(d):
-    return (d.value.shape, d.value.tobytes(), d.error.tobytes(),
+    return (d.value.shape, np.ma.getdata(d.value).tobytes(), np.ma.getmaskarray(d.value).tobytes(),
+            np.ma.getdata(d.error).tobytes(),
             [(k, v.tobytes()) for k, v in d.bins.items()], d.name, d.what)
 
 
 def ds_json(d):
     return {'shape': list(d.value.shape),
-            'cells': [int(x) for x in np.asarray(d.value).reshape(-1)],
+            'cells': [int(x) for x in np.ma.getdata(d.value).reshape(-1)],
             'bins': [[int(round(2 * x)) for x in v] for v in d.bins.values()]}
 
 
@@ -91,7 +96,13 @@ def oracle_get(ctx, d, idx, out, case):
         if out.value.size != 0:
             ctx.oracle_failure(f'empty selection returns cells :: {case}', case, key='empty-not-empty')
         return
-    if not (np.array_equal(out.value, d.value[sl]) and np.array_equal(out.error, d.error[sl])):
+    if np.ma.isMaskedArray(d.value) and not (
+            np.ma.isMaskedArray(out.value) and np.ma.isMaskedArray(out.error)
+            and np.array_equal(np.ma.getmaskarray(out.value), np.ma.getmaskarray(d.value[sl]))
+            and np.array_equal(np.ma.getmaskarray(out.error), np.ma.getmaskarray(d.error[sl]))):
+        ctx.oracle_failure(f'slice of a masked dataset loses or changes the mask :: {case}', case, key='mask-lost')
+    if not (np.array_equal(np.ma.getdata(out.value), np.ma.getdata(d.value[sl]))
+            and np.array_equal(np.ma.getdata(out.error), np.ma.getdata(d.error[sl]))):
         ctx.oracle_failure(f'slice returns wrong cells :: {case}', case, key='wrong-cells')
     if d.bins:
         if list(out.bins) != list(d.bins):
@@ -185,7 +196,7 @@ def gen_cases(ctx):
         if rng.random() < 0.3:
             case['step1'] = True
         if rng.random() < 0.4:
-            case['layout'] = rng.choice('FTS')
+            case['layout'] = rng.choice('FTSM')
         cases.append(case)
     ctx.count('random_nd_chains', nrand)
     return cases
@@ -220,7 +231,7 @@ def run_impl(ctx, case, triples):
             ctx.count('raise_' + type(out).__name__)
             triples.append((case, step))
             break
-        if not np.array_equal(out.error, out.value + 1000.):
+        if not np.array_equal(np.ma.getdata(out.error), np.ma.getdata(out.value) + 1000.):
             ctx.oracle_failure(f'error cells not those of the value cells :: {case}', case,
                                key='error-cells')
         step['res'] = {'ok': ds_json(out)}
